@@ -96,7 +96,7 @@ pub fn c10(o: &Oracle, _thorough: bool, _seed: u64, rep: &Report) {
     // the filter over all 2^32 words
     all_words(|w| {
         let e = if is_card(o, w) { w } else { 0 };
-        if CardNumber::filter(w) != e || <CKCNumber as PokerCard>::filter(w) != e {
+        if guarded(|| (CardNumber::filter(w), <CKCNumber as PokerCard>::filter(w))) != Ok((e, e)) {
             viol(rep, json!({"op":"filter","w":hilo(w)}), json!({"res": hilo(e), "res2": hilo(e)}), "filter does not pass exactly the 52 card words");
         }
     });
@@ -170,7 +170,10 @@ fn check_validity(o: &Oracle, rep: &Report, w: &[u32]) {
         };
         let got = guarded(|| {
             let a = rank_value_validated(&h);
-            let b = hand_rank_validated(&h).value;
+            let hv = hand_rank_validated(&h);
+            // the validated rank must be the conversion of the validated value: Invalid/Invalid for a
+            // non-hand, and it must pass its own consistency test
+            let b = if hv == ckc_rs::hand_rank::HandRank::from(hv.value) && hv.is_a_valid_hand_rank() { hv.value } else { u16::MAX };
             let c = if n == 5 { ckc_rs::evaluate::five_cards([w[0], w[1], w[2], w[3], w[4]]) } else { a };
             let d = if valid { rank_value(&h) } else { exp };
             (a, b, c, d)
@@ -178,8 +181,9 @@ fn check_validity(o: &Oracle, rep: &Report, w: &[u32]) {
         match got {
             Ok((a, b, c, d)) => {
                 if a != exp || b != exp || c != exp || d != exp {
-                    viol(rep, json!({"op":"valid","words":hilo_arr(w)}), json!({"v_validated": exp, "v_rank_validated": exp}),
-                         "validated ranking is not 0 exactly for non-hands and the unvalidated value otherwise");
+                    viol(rep, json!({"op":"valid","words":hilo_arr(w)}),
+                         json!({"v_validated": exp, "v_rank_validated": exp, "name_validated": o.name_of(exp), "class_validated": o.class_of(exp), "consistent_validated": true}),
+                         "validated ranking is not 0 / Invalid exactly for non-hands and the unvalidated rank otherwise");
                 }
             }
             Err(_) => viol(rep, json!({"op":"valid","words":hilo_arr(w)}), json!({"v_validated": exp}), "validated ranking unwound"),
@@ -213,10 +217,10 @@ pub fn c04(o: &Oracle, thorough: bool, seed: u64, rep: &Report) {
         let e = if is_card(o, w) { w } else { 0 };
         let t = Hand::from_words(&[w, partner]);
         let e_valid = e != 0 && w != partner;
-        if CardNumber::filter(w) != e {
+        if guarded(|| CardNumber::filter(w)) != Ok(e) {
             viol(rep, json!({"op":"filter","w":hilo(w)}), json!({"res": hilo(e)}), "card recogniser does not accept exactly the 52 card words");
         }
-        if t.is_valid() != e_valid {
+        if guarded(|| t.is_valid()) != Ok(e_valid) {
             viol(rep, json!({"op":"valid","words":hilo_arr(&[w, partner])}), json!({"valid": e_valid}), "is_valid differs from: every slot a card word and no two slots equal");
         }
     });
@@ -317,6 +321,29 @@ pub fn c11(o: &Oracle, thorough: bool, seed: u64, rep: &Report) {
     }
     let t = total.load(Ordering::Relaxed);
     rep.space("all arrays of sizes 2..7 over {blank, 3 cards, a flagged card, 0xFFFFFFFF, 1}", true, t);
+    // bit-neighbours: words that differ from a base word in one or two bit positions only, in every
+    // arrangement (a sort key that drops or reorders some bits shows only on such near-equal words)
+    let bases = [0u32, o.cards[0].w, o.cards[30].w, 0x8000_0000, u32::MAX, 0x1234_5678];
+    let perms4 = permutations(4);
+    let nb = AtomicU64::new(0);
+    par_chunks(32 * 32, |bb| {
+        let (b1, b2) = (bb / 32, bb % 32);
+        if b1 > b2 {
+            return;
+        }
+        for base in bases {
+            let four = [base, base ^ (1 << b1), base ^ (1 << b2), base ^ (1 << b1) ^ (1 << b2)];
+            for n in 2..=7usize {
+                for p in &perms4 {
+                    // the four neighbours in this order fill the first slots (cyclically), then the base
+                    let w: Vec<u32> = (0..n).map(|k| if k < 4 || n > 4 { four[p[k % 4]] } else { base }).collect();
+                    check_sort(rep, &w);
+                    nb.fetch_add(1, Ordering::Relaxed);
+                }
+            }
+        }
+    });
+    rep.space("bit-neighbour arrays: a base word with one or two bits flipped, all bit pairs x 6 bases x sizes 2..7 x 24 arrangements", true, nb.load(Ordering::Relaxed));
     let mut rng = Rng::new(seed ^ 0x50F7);
     let reps = if thorough { 2_000_000 } else { 100_000 };
     for n in 2..=7usize {
@@ -353,14 +380,13 @@ fn check_sort(rep: &Report, w: &[u32]) {
 }
 
 pub fn c19(o: &Oracle, thorough: bool, seed: u64, rep: &Report) {
-    let _ = o;
     let mut rng = Rng::new(seed ^ 0xC19);
     let steps = if thorough { 200_000 } else { 20_000 };
     let mut histories = 0u64;
     for n in 2..=7usize {
         for hist in 0..8 {
             // a live container and a plain array model
-            let init: Vec<u32> = (0..n).map(|_| rng.u32()).collect();
+            let init: Vec<u32> = (0..n).map(|k| if hist >= 4 { kind_word(o, (k + hist) % 8, &mut rng) } else { rng.u32() }).collect();
             let mut h = if hist % 2 == 0 { Hand::from_words(&init) } else { Hand::from_parts(&init) };
             let mut model = init.clone();
             let ctor = if hist % 2 == 0 { "c_from" } else { "c_parts" };
@@ -369,9 +395,11 @@ pub fn c19(o: &Oracle, thorough: bool, seed: u64, rep: &Report) {
             }
             for _ in 0..steps / 8 {
                 let slot = rng.below(n as u64) as usize;
-                let w = match rng.below(4) {
+                // arbitrary words, with the words a container is most likely to treat specially well represented
+                let w = match rng.below(6) {
                     0 => 0,
                     1 => u32::MAX,
+                    2 | 3 => kind_word(o, rng.below(8) as usize, &mut rng),
                     _ => rng.u32(),
                 };
                 let pre = model.clone();
@@ -405,8 +433,16 @@ pub fn c19(o: &Oracle, thorough: bool, seed: u64, rep: &Report) {
     }
     rep.space("seeded constructor/setter histories on Two..Seven with arbitrary words", false, histories);
     // five-slot selection: every in-range index tuple
-    for n in [6usize, 7usize] {
-        let w: Vec<u32> = (0..n).map(|_| rng.u32()).collect();
+    for (n, pool) in [(6usize, 0usize), (7, 0), (6, 1), (7, 1), (6, 2), (7, 2)] {
+        // three word pools: random words; every near-miss kind (card, blank, bit-flipped, flagged, all ones,
+        // small, rank-bit only, no rank bit); flagged cards of every mark combination
+        let w: Vec<u32> = (0..n)
+            .map(|k| match pool {
+                0 => rng.u32(),
+                1 => kind_word(o, k % 8, &mut rng),
+                _ => o.cards[rng.below(52) as usize].w | (((k as u32 % 7) + 1) << 29),
+            })
+            .collect();
         let h = Hand::from_words(&w);
         let count = n.pow(5);
         for k in 0..count {
@@ -423,7 +459,7 @@ pub fn c19(o: &Oracle, thorough: bool, seed: u64, rep: &Report) {
             }
             rep.eval(1);
         }
-        rep.space(&format!("all {}^5 index tuples for five-slot selection", n), true, count as u64);
+        rep.space(&format!("all {}^5 index tuples for five-slot selection (word pool {})", n, pool), true, count as u64);
     }
     rep.distinct(histories * (steps / 8) + 6u64.pow(5) + 7u64.pow(5));
     rep.sample(json!({"op":"c_set","n":5,"slot":2,"note":"container compared with an array model after every step through to_arr, accessors, iter, first"}));
